@@ -84,7 +84,7 @@ def tlc_phase(ctx):
         kind, mod, cfg, lab = job
         big = (not quick) and kind == "mc"
         return job, vlib.tlc(mod, cfg, workers=(8 if big else 3), coverage=(kind == "mc"), timeout=1500 if quick else 3000,
-                             tag=cfg[:-4], keep_out=(kind != "gen"))
+                             tag=cfg[:-4], keep_out=(kind != "gen"), extra=["-noGenerateSpecTE"])
 
     cases = []
     with ThreadPoolExecutor(max_workers=int(os.environ.get("VERIF_TLC_JOBS", "6") or "6")) as ex:
@@ -379,7 +379,7 @@ def selftest(ctx):
     """Binding self-test: (1) the pre-fix models must violate the invariants; (2) behaviours whose expected
     tokens / verdict were corrupted must be rejected by the replay on the real code."""
     for mod, cfg, lab in DEFECT:
-        r = vlib.tlc(mod, cfg, workers=4, tag="st_" + cfg[:-4])
+        r = vlib.tlc(mod, cfg, workers=4, tag="st_" + cfg[:-4], extra=["-noGenerateSpecTE"])
         if r.error or not r.violation:
             vlib.log("SELFTEST FAILED: %s did not violate the invariants" % cfg)
             return 2
@@ -388,7 +388,8 @@ def selftest(ctx):
     bad = []
     for mod, cfg in (("O5mRefill", "GenO5mRefill.cfg"), ("LineByLine", "GenLineByLine.cfg"), ("PbfRefill", "GenPbfRefill.cfg"), ("XmlFeed", "GenXmlFeed.cfg")):
         r = vlib.tlc_ok(vlib.tlc(mod, cfg, workers=4, tag="st_" + cfg[:-4]), cfg)
-        picked = [c for c in r.cases if c["verdict"] == "ok" and len(c["pieces"]) > 1 and (c.get("out") or c.get("lines"))][:40]
+        picked = [c for c in r.cases if c["verdict"] == "ok" and len(c["pieces"]) > 1 and (c.get("out") or c.get("lines"))
+                  and (c["mod"] != "pbf" or len(c["out"]) >= 2)][:40]          # the header frame alone delivers no object
         for i, c in enumerate(picked):
             c = json.loads(json.dumps(c))
             if i % 2 == 0:
